@@ -46,52 +46,58 @@ Leaf(f, x) ==
     [] f.ann.bytes = "BASE64URL_RAW" -> x.b64urlraw [] f.ann.bytes = "HEX" -> x.hex
     [] OTHER -> x.std
 
-RECURSIVE EncVal(_, _, _), Members(_, _, _), EncMsgVal(_, _)
+\* Enc has a mode h ("honour"): TRUE = the message's annotations apply (the contract, at any depth);
+\* FALSE = plain proto3 JSON (every annotation of this message ignored, enum names as declared).
+\* The contract is Enc(s, x) = EncMsgVal(s, x, TRUE, TRUE): h stays TRUE for nested messages.
+\* nh = the mode nested messages are encoded in (FALSE models D_nested_codec_ignored).
+RECURSIVE EncVal(_, _, _, _, _), Members(_, _, _, _, _), EncMsgVal(_, _, _, _)
 
-\* a message value wherever it occurs: the message's own mapping applies (C05 "at any depth")
-EncMsgVal(s, x) ==
+EncMsgVal(s, x, h, nh) ==
   IF ~HasMsg(s, x.type) THEN x.std                      \* well-known / foreign types: protojson's rendering
   ELSE LET M == MsgByName(s, x.type) IN
-       IF IsRootUnwrap(M) THEN EncVal(s, M.fields[1], x.fs[1].v)
-       ELSE JObj(Members(s, M, x))
+       IF h /\ IsRootUnwrap(M) THEN EncVal(s, M.fields[1], x.fs[1].v, h, nh)
+       ELSE JObj(Members(s, M, x, h, nh))
 
-EncVal(s, f, x) ==
-  CASE x.t = "s"  -> Leaf(f, x)
-    [] x.t = "l"  -> JArr([i \in DOMAIN x.es |-> EncVal(s, f, x.es[i])])
+EncVal(s, f, x, h, nh) ==
+  CASE x.t = "s"  -> IF h THEN Leaf(f, x) ELSE x.std
+    [] x.t = "l"  -> JArr([i \in DOMAIN x.es |-> EncVal(s, f, x.es[i], h, nh)])
     [] x.t = "mp" -> JObj({<<x.es[i].k,
                              \* map-value unwrap: a value message with an unwrap field collapses to that field's array
-                             IF x.es[i].v.t = "m" /\ HasMsg(s, x.es[i].v.type) /\ HasUnwrap(MsgByName(s, x.es[i].v.type))
+                             IF h /\ x.es[i].v.t = "m" /\ HasMsg(s, x.es[i].v.type) /\ HasUnwrap(MsgByName(s, x.es[i].v.type))
                                 /\ ~IsRootUnwrap(MsgByName(s, x.es[i].v.type))
                              THEN LET VM == MsgByName(s, x.es[i].v.type)
                                       uf == UnwrapFieldOf(VM)
                                       uv == (CHOOSE p \in Range(x.es[i].v.fs) : p.name = uf.name).v
-                                  IN EncVal(s, uf, uv)
-                             ELSE EncVal(s, f, x.es[i].v)>> : i \in DOMAIN x.es})
-    [] x.t = "m"  -> EncMsgVal(s, x)
+                                  IN EncVal(s, uf, uv, nh, nh)
+                             ELSE EncVal(s, f, x.es[i].v, h, nh)>> : i \in DOMAIN x.es})
+    [] x.t = "m"  -> EncMsgVal(s, x, nh, nh)           \* a nested message: its own mapping, in mode nh
 
-Members(s, M, x) ==
+Members(s, M, x, h, nh) ==
   UNION {
     LET f  == FieldOf(M, p.name)
         v  == p.v
-    IN  CASE HasOneofCfg(M, f) ->
+    IN  CASE h /\ HasOneofCfg(M, f) ->
                IF ~p.has THEN {}
                ELSE LET o == OneofOf(M, f.oneof)
                         dv == [t |-> "str", v |-> IF f.ann.oneofValue # "" THEN f.ann.oneofValue ELSE f.name]
                     IN {<<o.discriminator, dv>>}
                        \cup (IF o.flatten /\ v.t = "m" /\ HasMsg(s, v.type)
-                             THEN Members(s, MsgByName(s, v.type), v)
-                             ELSE {<<f.json, EncVal(s, f, v)>>})
-          [] f.ann.flatten /\ f.kind = "message" ->
+                             THEN Members(s, MsgByName(s, v.type), v, nh, nh)
+                             ELSE {<<f.json, EncVal(s, f, v, h, nh)>>})
+          [] h /\ f.ann.flatten /\ f.kind = "message" ->
                IF ~p.has \/ ~HasMsg(s, v.type) THEN {}
-               ELSE {<<f.ann.prefix \o kv[1], kv[2]>> : kv \in Members(s, MsgByName(s, v.type), v)}
-          [] f.ann.nullable -> IF p.has THEN {<<f.json, EncVal(s, f, v)>>} ELSE {<<f.json, JNull>>}
-          [] f.ann.empty \in {"NULL", "OMIT"} /\ p.has /\ v.t = "m" /\ v.empty ->
+               ELSE {<<f.ann.prefix \o kv[1], kv[2]>> : kv \in Members(s, MsgByName(s, v.type), v, nh, nh)}
+          [] h /\ f.ann.nullable -> IF p.has THEN {<<f.json, EncVal(s, f, v, h, nh)>>} ELSE {<<f.json, JNull>>}
+          [] h /\ f.ann.empty \in {"NULL", "OMIT"} /\ p.has /\ v.t = "m" /\ v.empty ->
                IF f.ann.empty = "NULL" THEN {<<f.json, JNull>>} ELSE {}
-          [] OTHER -> IF p.has THEN {<<f.json, EncVal(s, f, v)>>} ELSE {}
+          [] OTHER -> IF p.has THEN {<<f.json, EncVal(s, f, v, h, nh)>>} ELSE {}
     : p \in Range(x.fs) }
 
-\* the JSON form of a top-level message value
-Enc(s, x) == EncMsgVal(s, x)
+\* the JSON form of a top-level message value (the contract)
+Enc(s, x) == EncMsgVal(s, x, TRUE, TRUE)
+\* what the code does today for nested messages (D_nested_codec_ignored): the top-level message's
+\* own annotations apply, every nested message is plain proto3 JSON
+EncPlainNested(s, x) == EncMsgVal(s, x, TRUE, FALSE)
 
 (***************************************************************************)
 (* Round trip (C04): decoding what was encoded yields the value up to the  *)
@@ -123,6 +129,7 @@ PlainMsg(x) ==
   IF "fs" \notin DOMAIN x THEN [t |-> "s", tok |-> x.tok]
   ELSE [t |-> "m", fs |-> {<<p.name, IF p.has THEN PlainVal(p.v) ELSE [t |-> "unset"]>> : p \in Range(x.fs)}]
 
-RoundTripOK(s, x, back) == NormMsg(s, x) = PlainMsg(back)
+\* the losses are allowed, not required: what comes back is the value itself or its normal form
+RoundTripOK(s, x, back) == PlainMsg(back) \in {NormMsg(s, x), PlainMsg(x)}
 FormOK(s, x, json) == Canon(json) = Enc(s, x)
 =============================================================================
